@@ -29,6 +29,7 @@ import (
 	"strings"
 	"sync"
 
+	"go.sia.tech/core/types"
 	"verif/internal/harness"
 	"verif/internal/valgen"
 	"verif/internal/wirereg"
@@ -217,7 +218,7 @@ func multiproofVerdict(e *wirereg.Entry, v any, path string) (known, transmitted
 			if !strings.HasPrefix(path, full+".MerkleProof") {
 				continue
 			}
-			if el.SE.LeafIndex == ^uint64(0) || el.SE.LeafIndex == 10101010101010101010 {
+			if el.SE.LeafIndex == types.UnassignedLeafIndex {
 				return false, false, "" // ephemeral: proof travels in full
 			}
 			rest := path[len(full+".MerkleProof"):]
@@ -230,7 +231,7 @@ func multiproofVerdict(e *wirereg.Entry, v any, path string) (known, transmitted
 			idx := el.SE.LeafIndex
 			sibEmpty, lowest := true, true
 			for _, o := range els {
-				if o.SE == el.SE || o.SE.LeafIndex == 10101010101010101010 || len(o.SE.MerkleProof) != h {
+				if o.SE == el.SE || o.SE.LeafIndex == types.UnassignedLeafIndex || len(o.SE.MerkleProof) != h {
 					continue
 				}
 				if o.SE.LeafIndex>>uint(level) == (idx>>uint(level))^1 {
@@ -287,6 +288,7 @@ func (c *checker) influence(e *wirereg.Entry, v any, enc []byte, maxPaths int) {
 		m, ok := valgen.Mutated(c.rng, v, p)
 		if !ok {
 			b.Count("influence_path_not_applicable", 1)
+			b.SetAdd("paths_not_applicable", e.Name+"."+valgen.StripIndices(p))
 			continue
 		}
 		var menc []byte
@@ -459,7 +461,7 @@ func run(b *harness.B) {
 
 func main() {
 	harness.Main(harness.Spec{
-		ID: "C11",
+		ID:   "C11",
 		Rule: "every registered wire type (registry checked for completeness against the repository source with go/parser) x generated values of every shape: nil/empty/populated lists, extreme integers, currencies of every byte length, zero/extreme/sub-second/non-UTC times, every policy kind nested to depth 3, every resolution kind, v1/v2/multiproof block forms with Merkle proofs valid for one pseudo-random forest. Per value: round trip vs explicit normaliser, consumed length, re-encode, sequential+concurrent determinism, layout-table bytes (consensus-critical types), hash preimages; per selected value: every leaf field path mutated (field influence) and every proper prefix decoded (truncation). A case is distinct by (type, structural shape: per list position nil/empty/one/many, pointer nil/set, dynamic kinds, currency/time classes).",
 		Assume: []string{
 			"the layout tables (cmd/c11/layout.go) are the statement of the protocol layout: authored from the implementation at the pinned commit and cross-checked with the golden addresses in types/policy_test.go",
